@@ -194,3 +194,8 @@ func (k *gerKind) workDir() string     { return k.dir }
 func (k *gerKind) prepare(op Op) {}
 
 func (k *gerKind) pool() *sql.DB { return k.node.VerifDB() }
+
+func (k *gerKind) twinPath() string { return tmpDB(k.dir, fmt.Sprintf("twin%d.sqlite", k.twinN)) }
+func (k *gerKind) twinProcess(op Op) error {
+	return k.twin.VerifProcessBlock(context.Background(), k.build(op.Num, op.Evs))
+}
